@@ -22,7 +22,13 @@ CFG = {
             "read complete?, client gone, saw EOF, close_returned(result), waiter released(result), "
             "connect-after-close result), judged in Coq: the property clauses evaluated on the log (spec) and "
             "acceptance by the shutdown model with the unobservable server-internal steps placed. Non-trivial: "
-            "at least one connection or waiter; distinct by scenario script. Long in-flight requests (group long, "
+            "at least one connection or waiter; distinct by scenario script. Crowds (group crowd, tags crowd-*): "
+            "per mode, shutdown requested while 63, 64, 65, 127, 128, 129, 257 h1 connections (thorough: also 513, "
+            "1025, and every prefix for sizes up to 257) each have a handler in flight - a prefix (one, half, all but "
+            "one, all, rotated) of the clients leaves, alternately before close() and during shutdown, the rest "
+            "stay; 65, 129, 257 idle keep-alive connections plus one request in flight; 65 and 129 HTTP/2 "
+            "connections and 65 TLS connections in flight; some via drop. They run in a pool of their own beside "
+            "the rest; one needing more file descriptors than RLIMIT_NOFILE allows is emitted as skipped:*. Long in-flight requests (group long, "
             "hold:6.5s; thorough also hold:12s, via drop): per mode and transport one scenario with two staying "
             "clients (small and 1 MiB response) and an idle keep-alive connection whose handlers are released only "
             "6.5 s / 12 s after close() - beyond any drain deadline - run on threads of their own, overlapping "
